@@ -80,8 +80,9 @@ def attach_standin(out, pid, tier, seed, props=None, quick_runs=240, thorough_ru
                    "rule": "bounded run-time interpretation of the property's clauses on the real code (native/"
                            "scenarios.py): seeded problem families (QP, QP+quartic, QP+softplus, Rosenbrock, oscillating, "
                            "badly scaled; n 1..5; finite/one-sided/infinite/degenerate boxes; starts on faces/vertices) "
-                           "x random options; non-trivial = the run performed at least one iteration / the scenario "
-                           "reached its comparison; " + what,
+                           "x random options; every case comes from its own generator seed (distinct by construction); "
+                           "non-trivial = the run performed at least one iteration / the scenario reached its comparison "
+                           "(counted by the harness); " + what,
                    "samples": d["samples"][:3], "failures": len([f for f in d["failures"] if f["property"] == pid])}
     if d["harness_errors"]:
         out.extra["standin_harness_errors"] = d["harness_errors"][:5]
